@@ -42,6 +42,27 @@ Definition oremove_at (t : otable) (b : Z) : outcome otable :=
   | Stuck => Stuck | Fuel => Fuel | Exn => Exn
   end.
 
+(* ---- HashSet::pvFind over the GENERATED BucketOne::Find / WasFull / BucketBase::GetNextBucketIndex / GetMaxProbe ----
+   the generated Find returns &mItemBuffer (= 1 here) or the null pointer 0 *)
+Definition obucket_find (b : obucket) (key h : Z) : Z := Gen_One.Find (ost b) (fun _ => oky b =? key) h 1.
+
+Fixpoint ofind_loop (fuel : nat) (t : otable) (bc idx probe maxProbe key h : Z) {struct fuel} : outcome (option Z) :=
+  match fuel with
+  | O => Fuel
+  | S f =>
+    if Gen_One.WasFull (ost (t idx)) && (probe <=? maxProbe) then
+      let idx' := Gen_Base.GetNextBucketIndex idx bc in
+      if obucket_find (t idx') key h =? 0 then ofind_loop f t bc idx' (wrapU 64 (probe + 1)) maxProbe key h
+      else Ok (Some idx')
+    else Ok None
+  end.
+
+Definition ofind (t : otable) (L key h : Z) : outcome (option Z) :=
+  let bc := wrapU 64 (Z.shiftl 1 L) in
+  let start := Gen_Base.GetStartBucketIndex h bc in
+  if obucket_find (t start) key h =? 0 then ofind_loop (S (Z.to_nat bc)) t bc start 1 (Gen_Base.GetMaxProbe L) key h
+  else Ok (Some start).
+
 Section OneReloc.
 Variable hash : Z -> Z.
 
